@@ -290,6 +290,39 @@ def trielm_stream(ctx, pair, model, ty, cfg, path, enum_ref, stored):
     out = []
     if rc1 != 0 or rc2 != 0 or len(o1) != len(hops) or len(o2) != len(dops):
         return [("trielm stream could not run", {"rc": [rc1, rc2], "stderr": (e1 + e2)[-1500:]})]
+    # the verified checker on the real bytes: the file Represents the table of the python-side key set (n-grams + blanks by
+    # suffix closure), with the values / child ranges the real lookups report -> by check_sound + trie_refines, FullScore over
+    # these bytes = FullScore over that table.  Fails if a child range is unsorted, holds a record that is no key, or misses a key.
+    keys = set()
+    for k, ents in model["entries"].items():
+        for g, _ in ents:
+            g = tuple(g)
+            for j in range(len(g)):
+                keys.add(g[j:])
+    if not model["saw_unk"]:
+        keys.add(("<unk>",))
+    keys = sorted(keys, key=lambda g: (len(g), g))
+    if len(keys) <= 700:
+        kq = [[ids.get(w, 0) for w in g][::-1] for g in keys]
+        rc3, o3, e3 = pair.harness(["load T %d %s 0 0" % (ty, path)] + ["trieq T " + " ".join(map(str, q)) for q in kq])
+        toks = []
+        okk = rc3 == 0 and len(o3) == len(kq) + 1
+        if okk:
+            for q, line in zip(kq, o3[1:]):
+                last = line.split()[-1]
+                if last == "nf" or len(line.split()) != len(q) + 1:
+                    out.append(("an n-gram (or blank) of the model is not found by the real TrieSearch", {"key_ids": q, "impl": line}))
+                    okk = False
+                    break
+                parts = last.split(":")
+                toks.append(",".join(map(str, q)) + ":" + ":".join(parts[1:]))
+        if okk:
+            rc4, o4, e4 = pair.driver([dops[0], "triecheck %d %s" % (model["order"], " ".join(toks))], timeout=600)
+            ctx.count(("triecheck", ty, len(keys), o4[-1] if o4 else None), nontrivial=len(keys) > 8)
+            ctx.hist("triecheck", (o4[-1].split()[1] if o4 and o4[-1].startswith("triecheck") else "error"))
+            if rc4 != 0 or len(o4) != 2 or not o4[1].startswith("triecheck true"):
+                out.append(("the verified checker `TrieLM.check` rejects the real file: its bytes do not Represent the model's table",
+                            {"driver": o4[-1:] , "keys": len(keys), "stderr": e4[-500:]}))
     for q, a, b in zip(qs, o1[1:], o2[1:]):
         nf = a.endswith("nf")
         ctx.count(("trielm", ty, tuple(q), a), nontrivial=len(q) >= 2)
